@@ -21,6 +21,7 @@ PROP = {  # commit subject keyword -> property
     "three-byte VEX prefix set pp=66": "C12",
     "VEX encoding of the float compare": "C12",
     "leaked the compiler object": "C16",
+    "written in hex with the top bit set": "C15", "declared with .const under its own name": "C15", "repeats an existing constant": "C15",
 }
 log = subprocess.run(["git", "-C", "/repo", "log", "--format=%h %s"], stdout=subprocess.PIPE, text=True).stdout.strip().split("\n")
 fixed = []
